@@ -1497,8 +1497,11 @@ impl<'a, 'b, W: Write> Serializer for &'a mut YamlSerializer<'b, W> {
         } else if name == NAME_TUPLE_COMMENTED {
             Ok(TupleSer::commented(self))
         } else {
-            // Treat as normal block sequence
-            Ok(TupleSer::normal(self))
+            // Treat as a normal sequence: same placement and indentation rules.
+            let SeqSer {
+                ser, depth, flow, ..
+            } = self.serialize_seq(Some(_len))?;
+            Ok(TupleSer::normal(ser, depth, flow))
         }
     }
 
@@ -1845,6 +1848,8 @@ pub struct TupleSer<'a, 'b, W: Write> {
     weak_alias_id: Option<AnchorId>,
     /// For commented wrapper: captured comment text from field #0.
     comment_text: Option<String>,
+    /// For normal tuple-structs: whether the sequence is written in flow style.
+    normal_flow: bool,
 }
 enum TupleKind {
     Normal,       // treat as block seq
@@ -1854,18 +1859,21 @@ enum TupleKind {
 }
 impl<'a, 'b, W: Write> TupleSer<'a, 'b, W> {
     /// Create a tuple serializer for normal tuple-structs.
-    fn normal(ser: &'a mut YamlSerializer<'b, W>) -> Self {
-        let depth_next = ser.depth + 1;
+    ///
+    /// A tuple-struct is written exactly like a tuple / sequence: `depth` and `flow` are what
+    /// `serialize_seq` decided for this position.
+    fn normal(ser: &'a mut YamlSerializer<'b, W>, depth: usize, flow: bool) -> Self {
         Self {
             ser,
             kind: TupleKind::Normal,
             idx: 0,
-            depth_for_normal: depth_next,
+            depth_for_normal: depth,
             strong_alias_id: None,
             weak_present: false,
             skip_third: false,
             weak_alias_id: None,
             comment_text: None,
+            normal_flow: flow,
         }
     }
     /// Create a tuple serializer for internal strong-anchor payloads.
@@ -1880,6 +1888,7 @@ impl<'a, 'b, W: Write> TupleSer<'a, 'b, W> {
             skip_third: false,
             weak_alias_id: None,
             comment_text: None,
+            normal_flow: false,
         }
     }
     /// Create a tuple serializer for internal weak-anchor payloads.
@@ -1894,6 +1903,7 @@ impl<'a, 'b, W: Write> TupleSer<'a, 'b, W> {
             skip_third: false,
             weak_alias_id: None,
             comment_text: None,
+            normal_flow: false,
         }
     }
     /// Create a tuple serializer for internal commented wrapper.
@@ -1908,6 +1918,7 @@ impl<'a, 'b, W: Write> TupleSer<'a, 'b, W> {
             skip_third: false,
             weak_alias_id: None,
             comment_text: None,
+            normal_flow: false,
         }
     }
 }
@@ -1919,16 +1930,13 @@ impl<'a, 'b, W: Write> SerializeTupleStruct for TupleSer<'a, 'b, W> {
     fn serialize_field<T: ?Sized + Serialize>(&mut self, value: &T) -> Result<()> {
         match self.kind {
             TupleKind::Normal => {
-                if self.idx == 0 {
-                    self.ser.write_anchor_for_complex_node()?;
-                    if !self.ser.at_line_start {
-                        self.ser.newline()?;
-                    }
-                }
-                self.ser.write_indent(self.ser.depth + 1)?;
-                self.ser.out.write_str("- ")?;
-                self.ser.at_line_start = false;
-                value.serialize(&mut *self.ser)?;
+                let mut seq = SeqSer {
+                    ser: &mut *self.ser,
+                    depth: self.depth_for_normal,
+                    flow: self.normal_flow,
+                    first: self.idx == 0,
+                };
+                SerializeSeq::serialize_element(&mut seq, value)?;
             }
             TupleKind::AnchorStrong => {
                 match self.idx {
@@ -2036,6 +2044,15 @@ impl<'a, 'b, W: Write> SerializeTupleStruct for TupleSer<'a, 'b, W> {
     }
 
     fn end(self) -> Result<()> {
+        if let TupleKind::Normal = self.kind {
+            let seq = SeqSer {
+                ser: self.ser,
+                depth: self.depth_for_normal,
+                flow: self.normal_flow,
+                first: self.idx == 0,
+            };
+            return SerializeSeq::end(seq);
+        }
         Ok(())
     }
 }
